@@ -250,7 +250,9 @@ func H_C07_Float() {
 	if neg {
 		txt = append(txt, '-')
 	}
-	lead := vrt.ByteIn("lead", '0', '9')
+	// the documented shape of the shortest 'E' format: non-zero leading digit, no trailing zero in the
+	// fraction, exponent of at least two digits without a leading zero when it has three
+	lead := vrt.ByteIn("lead", '1', '9')
 	txt = append(txt, lead)
 	var frac []byte
 	if nfrac > 0 {
@@ -273,6 +275,12 @@ func H_C07_Float() {
 		d := vrt.ByteIn("e"+string(rune('0'+k)), '0', '9')
 		exp = append(exp, d)
 		txt = append(txt, d)
+	}
+	if nfrac > 0 {
+		vrt.Assume(frac[nfrac-1] != '0')
+	}
+	if nexp == 3 {
+		vrt.Assume(exp[0] != '0')
 	}
 	if !vrt.Symbolic() {
 		// natively the formatter is the real one: replay on the float the text denotes
